@@ -2,7 +2,7 @@
 {"tier":"quick","mode":"bounded(value text of at most 7 characters over every byte value except '[' and '/' (no mappings, no classes), NUL terminated at the end of its buffer; arrays of at most 3 elements)","tus":["lib/lpc/object.c"],"dfcc":false,
  "stub_out":["object.c:restore_mapping","object.c:restore_class"],
  "functions":["restore_svalue","restore_array","restore_size","restore_internal_size","restore_interior_string","restore_string","parse_numeric"],
- "flags":["--bounds-check","--pointer-check","--no-malloc-may-fail","--object-bits","10"],"unwind":10,"timeout":1500,
+ "flags":["--bounds-check","--pointer-check","--no-malloc-may-fail","--object-bits","10","--unwindset","__CPROVER_file_local_object_c_restore_array:2,__CPROVER_file_local_object_c_restore_internal_size:3"],"unwind":9,"timeout":1500,
  "expect":["restore_array.pointer_dereference","restore_size.pointer_dereference","h_restore_array.assertion"],
  "ignore":[{"class":"array_bounds","text_contains":"->item","why":"struct-hack member item[1]"},
            {"class":"overflow","text_contains":"res","why":"decimal accumulation of an over-long number wraps (unsigned)"}],
